@@ -59,6 +59,47 @@ type ctxAnalysis struct {
 	fv       map[*ssa.FreeVar]keyset
 	fieldCtx keyset
 	fieldSet bool
+	// path refinement for the dispatcher: on the edges taken only when replay == true the incoming
+	// context is the one passed by the callers that pass replay = true (the AOF replay callback)
+	disp       *dispCtx
+	replayKeys keyset
+	replayMust map[*ssa.BasicBlock]world.Facts
+}
+
+const factReplay world.Facts = 1 << 30
+
+func (a *ctxAnalysis) replayEdgeGen(b *ssa.BasicBlock, si int) world.Facts {
+	if a.disp == nil {
+		return 0
+	}
+	iff := world.IfOf(b)
+	if iff == nil {
+		return 0
+	}
+	c := iff.Cond
+	neg := false
+	if u, ok := c.(*ssa.UnOp); ok && u.Op.String() == "!" {
+		c, neg = u.X, true
+	}
+	if c == ssa.Value(a.disp.replay) && (si == 0) != neg {
+		return factReplay
+	}
+	return 0
+}
+
+// onReplayEdge: the phi edge i is taken only when replay == true.
+func (a *ctxAnalysis) onReplayEdge(phi *ssa.Phi, i int) bool {
+	if a.disp == nil || phi.Parent() != a.disp.fn || a.replayMust == nil {
+		return false
+	}
+	p := phi.Block().Preds[i]
+	f := a.replayMust[p]
+	for si, sc := range p.Succs {
+		if sc == phi.Block() {
+			f |= a.replayEdgeGen(p, si)
+		}
+	}
+	return f&factReplay != 0
 }
 
 var ctxMemo *ctxAnalysis
@@ -106,11 +147,14 @@ func (a *ctxAnalysis) keysOf(v ssa.Value, depth int) keyset {
 	case *ssa.Phi:
 		var ks keyset
 		first := true
-		for _, e := range x.Edges {
+		for i, e := range x.Edges {
 			if e == v {
 				continue
 			}
 			k := a.keysOf(e, depth+1)
+			if a.disp != nil && e == ssa.Value(a.disp.ctxParam) && a.onReplayEdge(x, i) {
+				k = a.replayKeys
+			}
 			if first {
 				ks, first = k, false
 			} else {
@@ -163,6 +207,10 @@ func ctxOf(w *world.World) *ctxAnalysis {
 		return ctxMemo
 	}
 	a := &ctxAnalysis{w: w, param: map[*ssa.Parameter]keyset{}, fv: map[*ssa.FreeVar]keyset{}}
+	if d, err := getDisp(w); err == nil {
+		a.disp = d
+		a.replayMust = world.Must(d.fn, a.replayEdgeGen, nil, nil)
+	}
 	cg := w.VTA()
 	skip := func(fn *ssa.Function) bool {
 		p := w.Pos(fn.Pos())
@@ -272,6 +320,45 @@ func ctxOf(w *world.World) *ctxAnalysis {
 					a.param[p] = ks
 					changed = true
 				}
+			}
+		}
+		// contexts passed by the callers that pass replay = true
+		if a.disp != nil {
+			var rk keyset
+			first := true
+			ridx, cidx := -1, -1
+			for i, p := range a.disp.fn.Params {
+				if p == a.disp.replay {
+					ridx = i
+				}
+				if p == a.disp.ctxParam {
+					cidx = i
+				}
+			}
+			for _, fn := range w.ModFns {
+				if skip(fn) {
+					continue
+				}
+				for _, c := range world.Calls(fn) {
+					if c.Common().StaticCallee() != a.disp.fn || ridx < 0 || cidx < 0 {
+						continue
+					}
+					if v, ok := world.ConstBool(c.Common().Args[ridx]); ok && v {
+						k := a.keysOf(c.Common().Args[cidx], 0)
+						if first {
+							rk, first = k, false
+						} else {
+							rk = ksInter(rk, k)
+						}
+					}
+				}
+			}
+			if first {
+				rk = keyset{}
+			}
+			if !ksEq(rk, a.replayKeys) {
+				a.replayKeys = rk
+				changed = true
 			}
 		}
 		if !changed {
@@ -538,6 +625,44 @@ func ruleN3(w *world.World, r *report.RuleResult) {
 	}
 	if n == 0 {
 		r.Fail("ApplyRequest.Database", "-", "no replicated request sets its Database field: every replicated command is applied to database 0")
+	}
+	// (1b) the dispatcher re-binds "Database"/"Protocol" from its connection tables only when the
+	// request is not a replay: a replayed command carries its database in the caller's context
+	if d, err := getDisp(w); err == nil {
+		const NR world.Facts = 1
+		must := world.Must(d.fn, func(b *ssa.BasicBlock, si int) world.Facts {
+			iff := world.IfOf(b)
+			if iff == nil {
+				return 0
+			}
+			c := iff.Cond
+			neg := false
+			if u, ok := c.(*ssa.UnOp); ok && u.Op.String() == "!" {
+				c, neg = u.X, true
+			}
+			if c == ssa.Value(d.replay) && (si == 1) != neg {
+				return NR
+			}
+			return 0
+		}, nil, nil)
+		k := 0
+		for _, c := range world.Calls(d.fn) {
+			f := c.Common().StaticCallee()
+			if f == nil || f.String() != "context.WithValue" {
+				continue
+			}
+			ks, ok := world.ConstString(world.Unwrap(c.Common().Args[1]))
+			if !ok || ks != "Database" {
+				continue
+			}
+			k++
+			key := fmt.Sprintf("%s|rebinds-database-only-when-not-replaying#%d", world.FuncName(d.fn), k)
+			if world.FactsAt(must, c, nil, nil)&NR != 0 {
+				r.OK(key, w.InstrPos(c), "the request's database is (re)bound from the connection tables only on the replay==false edge")
+			} else {
+				r.Fail(key, w.InstrPos(c), "the dispatcher overwrites the context's \"Database\" with the connection table's value on a path that is also taken during AOF replay (conn == nil, replay == true): the database chosen by the log's SELECT marker is replaced by tcpClients[nil].Database = 0, so every replayed command lands in database 0")
+			}
+		}
 	}
 	// (2) FSM.Apply: context built with WithValue("Database", request.Database)
 	fsm := w.Func("internal/raft.(*FSM).Apply")
